@@ -1,4 +1,7 @@
+import Hannibal.Props.C09Q
 import Hannibal.Props.C09
 #print axioms Hannibal.C09_holds
 #print axioms Hannibal.c09_step
 #print axioms Hannibal.deliver_ok
+#print axioms Hannibal.C09q_holds
+#print axioms Hannibal.C09qs_holds
